@@ -23,23 +23,29 @@ Theorem C05_generational_step_reads_only_true_fitness :
   \/ generational_step G F fit opt feq g0 a pop specs chosen = BadOracle.
 Proof. exact (step_ok G F fit opt feq feq_refl g0). Qed.
 
-(* 2. every history of an island: generational steps, fitness resets by migration, best-individual queries
-      and hall-of-fame updates (which read every member), in any order, from a freshly generated population:
-      never a missing or stale read; at every boundary a flagged individual carries its true fitness *)
+(* 2. every history of an island: generational steps, fitness resets, migrations (some members leave, the partner island's
+      arrive - each with no stored value or with its true one, since all islands share the fitness function - and every flag is
+      cleared), regeneration of the population, best-individual queries and hall-of-fame updates (which evaluate the population
+      when the island is new or some member is not marked evaluated, then read every member), in any order, from a freshly
+      generated population: never a missing or stale read; at every boundary a flagged individual carries its true fitness *)
 Theorem C05_island_history_never_stale :
   forall a ops pop0,
   Forall (fun i => stored G F i = None /\ flag G F i = false) pop0 ->
+  Forall (fun o => match o with
+                   | IMigrate _ _ _ incoming => Forall (fun i => stored G F i = None \/ stored G F i = Some (fit (genome G F i))) incoming
+                   | _ => True end) ops ->
   (exists pop age, island_run G F fit opt feq g0 a (pop0, 0) ops = Ok (pop, age) /\
       Forall (fun i => flag G F i = true -> stored G F i = Some (fit (genome G F i))) pop)
   \/ island_run G F fit opt feq g0 a (pop0, 0) ops = BadOracle.
 Proof.
-  intros a ops pop0 H0.
+  intros a ops pop0 H0 Hops.
   assert (Hi : island_inv G F fit (pop0, 0)).
-  { repeat split; simpl.
+  { split; simpl.
     - eapply Forall_impl; [|exact H0]. intros i [_ Hf] Hc. congruence.
-    - eapply Forall_impl; [|exact H0]. intros i [Hs _]. left. exact Hs.
-    - intros C. congruence. }
-  destruct (island_run_ok G F fit opt feq feq_refl g0 a ops (pop0, 0) Hi) as [([pop age] & E & (I1 & _))|E].
+    - eapply Forall_impl; [|exact H0]. intros i [Hs _]. left. exact Hs. }
+  assert (Ho : Forall (iop_ok G F fit) ops).
+  { eapply Forall_impl; [|exact Hops]. intros o H. destruct o; try exact I. exact H. }
+  destruct (island_run_ok G F fit opt feq feq_refl g0 a ops (pop0, 0) Hi Ho) as [([pop age] & E & (I1 & _))|E].
   - left. exists pop, age. split; auto.
   - right. exact E.
 Qed.
@@ -53,4 +59,13 @@ Example C05_example :
     [mkInd nat nat 1 None false; mkInd nat nat 2 None false]
     [ONew nat [0; 1] 5; OCopy nat 1; ONew nat [1] 7] [2; 0]
   = Ok [mkInd nat nat 7 (Some 70) true; mkInd nat nat 5 (Some 50) true].
+Proof. vm_compute. reflexivity. Qed.
+
+(* non-vacuity of the history theorem: an island that receives an UNEVALUATED migrant at age 1 (the situation of finding F23)
+   and is then asked for its best individual evaluates the migrant first *)
+Example C05_history_example :
+  island_run nat nat (fun g => 10 * g) (fun g => g) Nat.eqb 0 MuPlusLambda
+    ([mkInd nat nat 1 None false; mkInd nat nat 2 None false], 0)
+    [IStep nat nat [OCopy nat 0; ONew nat [1] 7] [0; 3]; IMigrate nat nat [1] [mkInd nat nat 4 None false]; IBest nat nat]
+  = Ok ([mkInd nat nat 7 (Some 70) true; mkInd nat nat 4 (Some 40) true], 1).
 Proof. vm_compute. reflexivity. Qed.
